@@ -65,6 +65,14 @@ structure InvS' (s : St) : Prop where
   thr : ∀ t, ThrOK s t (s.loc t)
   seq_inj : ∀ t u, (s.loc t).hasSeq = true → (s.loc u).hasSeq = true → (s.loc t).seq = (s.loc u).seq → t = u
 
+/-- what has to be added to `InvS` to make it inductive -/
+structure InvSX (s : St) : Prop where
+  /-- a background serving thread is never at a client-only program counter -/
+  bg_pc : ∀ t, (s.loc t).bg = true → (s.loc t).pc.client = false
+  /-- `result_ok` for background threads (their `result`/`seq` are left over from an earlier call) -/
+  result_bg : ∀ t e o, (s.loc t).bg = true → (s.loc t).result = some (.value e o) →
+      ∃ e' v, s.answer (s.loc t).seq = some (e', v) ∧ e = some e' ∧ o = some v
+
 theorem le_max_mono {a b d w : Nat} (h : a ≤ b) (hw : w ≤ max a d) : w ≤ max b d := by omega
 
 theorem PC.waiting_iff (p : PC) : p.waiting = true ↔ p = .w0 ∨ p = .w9 ∨ p = .w10 := by
@@ -94,6 +102,44 @@ theorem InvS'.toInvS {s : St} (h : InvS' s) : InvS s where
   self_dispatch t h1 h2 h3 := (PC.waiting_iff _).1 ((h.thr t).self_dispatch h1 h2 h3)
   dl_ttl t := (h.thr t).dl_ttl
   wdl_le t := (h.thr t).wdl_le
+
+theorem InvS'.toInvSX {s : St} (h : InvS' s) : InvSX s where
+  bg_pc t := (h.thr t).bg_pc
+  result_bg t e o _ := (h.thr t).result_ok e o
+
+theorem InvS'.of_InvS {s : St} (h : InvS s) (hx : InvSX s) : InvS' s where
+  glob := {
+    issued_lt := h.issued_lt
+    issued_nodup := h.issued_nodup
+    fresh := h.fresh
+    out_nodup := h.out_nodup
+    out_unanswered := h.out_unanswered
+    reg_clean := h.reg_clean
+    chan_answer := h.chan_answer
+    obj_answer := h.obj_answer
+    exc_answer := h.exc_answer
+    compl_le := h.compl_le
+    ready_compl := h.ready_compl }
+  thr t := {
+    bg_pc := hx.bg_pc t
+    seq_issued := h.seq_issued t
+    at_c1 := h.at_c1 t
+    at_c2 := h.at_c2 t
+    cb_pc := fun q => h.cb_pc t q
+    completing := h.completing t
+    data_answer := h.data_answer t
+    at_w10 := h.at_w10 t
+    result_ok := fun e o hr => by
+      cases hb : (s.loc t).bg with
+      | false => exact h.result_ok t e o hb hr
+      | true => exact hx.result_bg t e o hb hr
+    self_dispatch := fun a b c => (PC.waiting_iff _).2 (h.self_dispatch t a b c)
+    dl_ttl := h.dl_ttl t
+    wdl_le := h.wdl_le t }
+  seq_inj := h.seq_inj
+
+theorem invS'_iff {s : St} : InvS' s ↔ InvS s ∧ InvSX s :=
+  ⟨fun h => ⟨h.toInvS, h.toInvSX⟩, fun h => InvS'.of_InvS h.1 h.2⟩
 
 /-! ### facts about one thread -/
 
